@@ -1,5 +1,4 @@
 from shexer.utils.log import log_msg
-from shexer.utils.uri import there_is_arroba_after_last_quotes
 from shexer.utils.triple_yielders import tune_prop, tune_token  # , check_if_property_belongs_to_namespace_list
 from shexer.io.graph.yielder.base_triples_yielder import BaseTriplesYielder
 
@@ -81,23 +80,30 @@ class NtTriplesYielder(BaseTriplesYielder):
         return index_sub + (len(target_str) - len(target_substring)) - 1
 
     def _look_for_last_index_of_literal_token(self, target_str, first_index):
-        target_substring = target_str[first_index:]
+        index_of_closing_quotes = self._look_for_index_of_closing_quotes(target_str, first_index)
+        if target_str[index_of_closing_quotes + 1:index_of_closing_quotes + 4] == "^^<":  # Typed
+            index_of_closing_corner = target_str.find(">", index_of_closing_quotes)
+            return index_of_closing_corner if index_of_closing_corner != -1 else len(target_str) - 1
+        if target_str[index_of_closing_quotes + 1:index_of_closing_quotes + 2] in ("@", "^"):
+            # String labelled with language (or prefixed type). The token finishes with the next blank
+            index_of_blank = target_str.find(" ", index_of_closing_quotes)
+            return index_of_blank - 1 if index_of_blank != -1 else len(target_str) - 1
+        return index_of_closing_quotes  # Not typed
 
-        if there_is_arroba_after_last_quotes(target_substring):  # String labelled with language
-            return target_substring[target_substring.rfind("@"):].find(" ") - 1 + target_str.rfind("@")
-        elif "^^" not in target_substring:  # Not typed
-            success = False
-            index_of_quotes = 1
-            while not success:
-                index_of_second_quotes = target_substring[index_of_quotes + 1:].find('"') + index_of_quotes + 1
-                if target_substring[index_of_second_quotes - 1] != "\\":
-                    success = True
-                elif target_substring[index_of_second_quotes - 2] == "\\":  # Case of escaped slash "\\"
-                    success = True
-                index_of_quotes = index_of_second_quotes
-            return index_of_quotes + (len(target_str) - len(target_substring))
-        else:  # Typed
-            return target_substring[target_substring.find("^^"):].find(" ") - 1 + target_str.find("^^")
+    def _look_for_index_of_closing_quotes(self, target_str, first_index):
+        """
+        Index of the first quotes after first_index which are not escaped, i.e., which are
+        preceded by an even number of backslashes. If there are not such quotes, the last index of the line.
+        """
+        index_of_quotes = target_str.find('"', first_index + 1)
+        while index_of_quotes != -1:
+            n_backslashes = 0
+            while target_str[index_of_quotes - 1 - n_backslashes] == "\\":
+                n_backslashes += 1
+            if n_backslashes % 2 == 0:
+                return index_of_quotes
+            index_of_quotes = target_str.find('"', index_of_quotes + 1)
+        return len(target_str) - 1
 
     @property
     def yielded_triples(self):
